@@ -2,3 +2,4 @@
 import Casket.Props.C05
 import Casket.Props.C16
 import Casket.Props.C08
+import Casket.Props.C07
